@@ -136,6 +136,8 @@ class StmtMixin(CallMixin):
                     raise Unsupported("local %s declared %s, assigned %s (line %s)" % (n, hint, v.ty, self.cur_line))
                 cv.lv = v.lv
                 v = cv
+            elif n == "_":
+                pass                      # conventional discard name: freely re-typed
             elif isinstance(old, V) and old.ty != v.ty and old.ty != PYOBJ and v.ty != PYOBJ:
                 cv = T.coerce(v, old.ty)
                 if cv is None:
@@ -479,7 +481,7 @@ class StmtMixin(CallMixin):
             if self.body_touches_ghost(body, g):
                 st.ghost[g] = self.fresh(st.ghost[g].ty, g)
         if self.body_has_effects(body):
-            self.havoc_frame(st)
+            self.havoc_frame(st, only=self.body_write_set(body))
             if self.body_has_await(body):
                 self.yield_havoc(st)
 
@@ -511,9 +513,94 @@ class StmtMixin(CallMixin):
     def body_has_await(self, body):
         return any(isinstance(x, (ast.Await, ast.Yield)) for n in body for x in ast.walk(n))
 
-    def havoc_frame(self, st):
+    FUT_MUT = ("set_result", "set_exception", "cancel")
+    CONT_MUT = ("append", "appendleft", "popleft", "pop", "clear", "add", "remove", "discard", "update", "extend",
+                "setdefault", "insert", "sort")
+    NO_WRITE = ("done", "result", "exception", "cancelled", "get", "keys", "values", "items", "copy", "add_done_callback",
+                "remove_done_callback", "startswith", "encode", "decode", "format", "join", "split", "debug", "info",
+                "warning", "error", "exception", "monotonic", "time")
+
+    def fields_named(self, f):
+        return set((cn, f) for cn, cm in C.CLASSES.items() if f in cm.fields)
+
+    def body_write_set(self, body):
+        """Over-approximation of the heap maps a loop body may write; None = unknown (whole frame)."""
+        ws = set()
+        for n in body:
+            for x in ast.walk(n):
+                if isinstance(x, (ast.Await, ast.Yield, ast.YieldFrom)):
+                    return None
+                if isinstance(x, ast.Attribute) and isinstance(x.ctx, (ast.Store, ast.Del)):
+                    ws |= self.fields_named(x.attr)
+                elif isinstance(x, ast.Subscript) and isinstance(x.ctx, (ast.Store, ast.Del)):
+                    b = x.value
+                    while isinstance(b, ast.Subscript):
+                        b = b.value
+                    if isinstance(b, ast.Attribute):
+                        ws |= self.fields_named(b.attr)
+                    elif not isinstance(b, ast.Name):
+                        return None
+                elif isinstance(x, ast.Call):
+                    f = x.func
+                    if isinstance(f, ast.Attribute):
+                        m = f.attr
+                        if isinstance(f.value, ast.Name) and f.value.id in ("log", "logger", "logging", "time", "Errors"):
+                            continue
+                        if m in self.FUT_MUT:
+                            ws |= {("Future", "*")}
+                        elif m in self.CONT_MUT:
+                            b = f.value
+                            while isinstance(b, ast.Subscript):
+                                b = b.value
+                            if isinstance(b, ast.Attribute):
+                                ws |= self.fields_named(b.attr)
+                            elif not isinstance(b, ast.Name):
+                                return None
+                        elif m in self.NO_WRITE:
+                            continue
+                        else:
+                            cons = [c for (cls, mm), c in C.BY_METHOD.items() if mm == m]
+                            cm = self.find_call_model(ast.unparse(f))
+                            if cm is not None:
+                                if cm.havoc_all:
+                                    return None
+                                locs = [(None, l) for l in cm.modifies]
+                            elif cons:
+                                locs = [(c, l) for c in cons for l in c.modifies_]
+                            else:
+                                return None
+                            for c, loc in locs:
+                                head, _, fld = loc.rpartition(".")
+                                if head in C.CLASSES or head == "Future":
+                                    ws.add((head, fld))
+                                elif c is not None and head == "self":
+                                    ws.add((c.self_cls, fld))
+                                elif c is not None and head.startswith("self.") and head.count(".") == 1:
+                                    fty = C.CLASSES[c.self_cls].fields.get(head.split(".")[1])
+                                    inner = fty.inner if isinstance(fty, Opt) else fty
+                                    if isinstance(inner, Ref):
+                                        ws.add((inner.cls, fld))
+                                    else:
+                                        return None
+                                else:
+                                    return None
+                    elif isinstance(f, ast.Name):
+                        if f.id in ("len", "min", "max", "isinstance", "int", "bool", "abs", "sorted", "list", "set", "tuple",
+                                    "dict", "range", "enumerate", "repr", "str", "type", "create_future", "TopicPartition",
+                                    "getattr", "frozenset", "bytes", "bytearray", "memoryview"):
+                            continue
+                        con = C.BY_FUNC.get((self.module.dotted, f.id))
+                        if con is None or con.modifies_:
+                            if f.id in self.exc_names():
+                                continue
+                            return None
+                    else:
+                        return None
+        return ws
+
+    def havoc_frame(self, st, only=None):
         dummy = type("M", (), {"modifies_": self.c.modifies_})
-        self.havoc_modifies(st, dummy, self.entry.env)
+        self.havoc_modifies(st, dummy, self.entry.env, only=only)
         # objects allocated by this activation may also have been modified
         for r in st.flags.get("fresh", []):
             pass
@@ -524,10 +611,7 @@ class StmtMixin(CallMixin):
                 for r in st.flags["fresh"]:
                     m = z3.Store(m, r, z3.FreshConst(ty.sort(), "hvf"))
                 st.heap[(cls, fld)] = m
-        st.nalloc = z3.FreshConst(z3.IntSort(), "nalloc")
-        st.assume(st.nalloc >= self.entry.nalloc)
-        for r in st.flags.get("fresh", []):
-            st.assume(r < st.nalloc)
+        self.alloc_boundary(st)
 
     def inv_bool(self, spec, st, extra, assume=False):
         f = self.spec_assume if assume else self.spec_bool
@@ -573,11 +657,12 @@ class StmtMixin(CallMixin):
                     if self.feasible(sb):
                         outs.extend(self.loop_body(s, sb, spec, dv, line, ord_body, kind))
             else:
-                se = sx.copy().assume(self.dom_done(dv, sx))
+                done = self.dom_done(dv, sh)          # also records the domain's range facts in sh
+                se = sh.copy().assume(done)
                 self.dom_exit(dv, se)
                 if self.feasible(se):
                     outs.append(Out("fall", se))
-                sb = sh.copy().assume(z3.Not(self.dom_done(dv, sh)))
+                sb = sh.copy().assume(z3.Not(done))
                 if self.feasible(sb):
                     self.dom_bind(s, dv, sb)
                     outs.extend(self.loop_body(s, sb, spec, dv, line, ord_body, kind))
@@ -795,9 +880,7 @@ class StmtMixin(CallMixin):
                 if isinstance(rty, Ref) and rty.cls == cls:
                     st.heap[(cls, fld)] = z3.Store(st.heap[(cls, fld)], hv.t, z3.Select(oldm, hv.t))
             # objects allocated by this activation and never published stay private
-        na = z3.FreshConst(z3.IntSort(), "nalloc")
-        st.assume(na >= st.nalloc)
-        st.nalloc = na
+        self.alloc_boundary(st)
         # futures resolve at most once: done-ness and results are stable
         r = z3.FreshConst(z3.IntSort(), "r")
         os_ = self.hmap(pre, "Future", "state")
